@@ -94,7 +94,7 @@ class Gen:
                 opts.append(n + ".$.[0]")
                 w.append(1)
         if self.p.last_error:
-            opts += ["%last_error%", "%last_error%.$.message"]
+            opts += ["%last_error%.$.error_code", "%last_error%.$.instruction"]
             w += [1, 1]
         return r.choices(opts, w)[0]
 
